@@ -31,7 +31,8 @@ RULE = ("job = seed -> TLS 1.3 (all five suites, +- client certificate for "
         "control operation was processed by the peer"
         ' The control traffic may run on a resumed connection (ID / ticket / PSK) and after a HelloRetryRequest handshake; step invariant: the server session names a new client chain only after the post-handshake Finished has been accepted (small server record limits spread the flight over several records).'
         ' Heartbeats sized on / next to the record boundary; post-handshake auth with a client that declines (empty Certificate), with a request that does not offer certificate compression, and replay of an already answered request.'
-        ' Generator protocol oracle: a read that processes control messages (post-handshake auth, KeyUpdate, tickets) yields 0/1 and then exactly one result, the data.  Illegal control also: KeyUpdate with request_update outside {0,1} sent through the API (keys in step).')
+        ' Generator protocol oracle: a read that processes control messages (post-handshake auth, KeyUpdate, tickets) yields 0/1 and then exactly one result, the data.  Illegal control also: KeyUpdate with request_update outside {0,1} sent through the API (keys in step).'
+        ' Illegal control also: a NewSessionTicket sent by the client.')
 LEVEL_TEXT = ("Seeded exploration of bounded control/data histories with "
               "random interleaving and delivery; the key-schedule oracle is "
               "an independent HKDF written on stdlib hmac.")
@@ -47,7 +48,7 @@ PROBES = ["key_update", "key_update_requested", "simultaneous_keyupdate",
           "illegal_finished", "ku_not_aligned", "nst", "secrets_checked",
           "pha_order_checked", "resumed", "hrr",
           "heartbeat_record_boundary", "pha_declined", "pha_replay",
-          "ku_bad_value"]
+          "ku_bad_value", "nst_from_client"]
 COMPONENTS_REAL = ["tlslite post-handshake paths: KeyUpdate, PHA, "
                    "heartbeat, NewSessionTicket processing in readAsync"]
 COMPONENTS_STUB = ["socket", "os.urandom", "clock"]
@@ -440,7 +441,7 @@ def run(job, streams=None):
         if tls13 and conns["c"].tickets:
             probes["nst"] = 1
         # ---- optional illegal control message
-        ill = ch.draw(10, "i.kind")
+        ill = ch.draw(12, "i.kind")
         if ill in (6, 7) and pha_count and seen_cr and not viol:
             # the client answers an already answered CertificateRequest a
             # second time (after a decline: now with a real certificate)
@@ -466,7 +467,7 @@ def run(job, streams=None):
                   type(last.exc).__name__, "second answer to a "
                   "CertificateRequest surfaced as %r" % (last.exc,))
             processed = True
-        if ill in (1, 2, 3, 4, 5, 8, 9):
+        if ill in (1, 2, 3, 4, 5, 8, 9, 10, 11):
             w = "cs"[ch.draw(2, "i.who")]
             peer = "s" if w == "c" else "c"
             name = None
@@ -494,6 +495,12 @@ def run(job, streams=None):
                 ops = [[w, "rawrec", M.Message(22, ku + bytearray(
                     [24, 0, 0]))]]
                 name = "ku_not_aligned"
+            elif ill in (10, 11) and tls13:
+                # only servers issue tickets
+                w, peer = "c", "s"
+                ops = [[w, "raw", M.NewSessionTicket().create(
+                    3600, 1, bytearray(b"n"), bytearray(b"ticket"), [])]]
+                name = "nst_from_client"
             elif ill in (8, 9) and tls13:
                 # request_update outside {0, 1} (RFC 8446 4.6.3:
                 # illegal_parameter)
